@@ -67,6 +67,13 @@ where
     blobs: Arc<RwLock<HierarchicalFilters<K, CombinedFilter<K>, Blob<K>>>>,
 }
 
+/// Result of deletion under the storage lock: count and the notifications to send after unlock
+struct DeleteOutcome {
+    deleted: u64,
+    defer_index_dump: bool,
+    try_fsync: bool,
+}
+
 /// Helper struct to add names to result parameters
 struct ReadBlobsResult<K> 
 where
@@ -324,32 +331,40 @@ where
         }
         let record = Record::create(key, timestamp.into(), value, meta)
             .with_context(|| "storage write with record creation failed")?;
-        let safe = self.inner.safe.read().await;
-        let blob = safe
-            .active_blob
-            .as_ref()
-            .ok_or_else(Error::active_blob_not_set)?;
-        let result = Blob::write(blob, key, record).await.or_else::<anyhow::Error, _>(|err| {
-            let e = err.downcast::<Error>()?;
-            if let ErrorKind::FileUnavailable(kind) = e.kind() {
-                let work_dir = self
-                    .inner
-                    .config
-                    .work_dir()
-                    .ok_or_else(Error::uninitialized)?;
-                Err(Error::work_dir_unavailable(work_dir, e.to_string(), kind.to_owned()).into())
-            } else {
-                Err(e.into())
-            }
-        })?;
-        self.try_update_active_blob(blob).await?;
-        if self.inner.should_try_fsync(result.dirty_bytes) {
+        let (need_update, need_fsync) = {
+            let safe = self.inner.safe.read().await;
+            let blob = safe
+                .active_blob
+                .as_ref()
+                .ok_or_else(Error::active_blob_not_set)?;
+            let result = Blob::write(blob, key, record).await.or_else::<anyhow::Error, _>(|err| {
+                let e = err.downcast::<Error>()?;
+                if let ErrorKind::FileUnavailable(kind) = e.kind() {
+                    let work_dir = self
+                        .inner
+                        .config
+                        .work_dir()
+                        .ok_or_else(Error::uninitialized)?;
+                    Err(Error::work_dir_unavailable(work_dir, e.to_string(), kind.to_owned()).into())
+                } else {
+                    Err(e.into())
+                }
+            })?;
+            let need_update = self.should_update_active_blob(blob).await?;
+            (need_update, self.inner.should_try_fsync(result.dirty_bytes))
+        };
+        // Observer is notified only after all locks are released: sending to its bounded
+        // channel can block, and the worker needs the storage lock to make progress
+        if need_update {
+            self.observer.try_update_active_blob().await;
+        }
+        if need_fsync {
             self.observer.try_fsync_data().await;
         }
         Ok(())
     }
 
-    async fn try_update_active_blob(&self, active_blob: &Box<ASRwLock<Blob<K>>>) -> Result<()> {
+    async fn should_update_active_blob(&self, active_blob: &Box<ASRwLock<Blob<K>>>) -> Result<bool> {
         let config_max_size = self
             .inner
             .config
@@ -371,10 +386,10 @@ where
                 Err(d) => d,
             };
             if dur.as_millis() > self.inner.config.debounce_interval_ms() as u128 {
-                self.observer.try_update_active_blob().await;
+                return Ok(true);
             }
         }
-        Ok(())
+        Ok(false)
     }
 
     /// Reads the first found data matching given key.
@@ -1021,11 +1036,24 @@ where
     }
 
     async fn delete_with_optional_meta(&self, key: impl AsRef<K>, timestamp: BlobRecordTimestamp, meta: Option<Meta>, only_if_presented: bool) -> Result<u64> {
+        let outcome = self.delete_under_lock(key.as_ref(), timestamp, meta, only_if_presented).await?;
+        // Observer is notified only after the storage lock is released: sending to its bounded
+        // channel can block, and the worker needs the storage lock to make progress
+        if outcome.defer_index_dump {
+            self.observer.defer_dump_old_blob_indexes().await;
+        }
+        if outcome.try_fsync {
+            self.observer.try_fsync_data().await;
+        }
+        Ok(outcome.deleted)
+    }
+
+    async fn delete_under_lock(&self, key: &K, timestamp: BlobRecordTimestamp, meta: Option<Meta>, only_if_presented: bool) -> Result<DeleteOutcome> {
         {
             // Try read lock first
             let safe = self.inner.safe.read().await;
             if only_if_presented || safe.active_blob.is_some() {
-                return self.delete_core(&safe, key.as_ref(), timestamp, meta, only_if_presented).await;
+                return self.delete_core(&safe, key, timestamp, meta, only_if_presented).await;
             }
         }
 
@@ -1034,26 +1062,26 @@ where
         if !only_if_presented {
             self.inner.ensure_active_blob_exists(&mut safe).await?;
         }
-        return self.delete_core(&mut safe, key.as_ref(), timestamp, meta, only_if_presented).await;
+        return self.delete_core(&mut safe, key, timestamp, meta, only_if_presented).await;
     }
 
     /// Core deletion logic, when lock on `Safe<K>` is acquired
-    async fn delete_core(&self, safe: &Safe<K>, key: &K, timestamp: BlobRecordTimestamp, meta: Option<Meta>, only_if_presented: bool) -> Result<u64> {
+    async fn delete_core(&self, safe: &Safe<K>, key: &K, timestamp: BlobRecordTimestamp, meta: Option<Meta>, only_if_presented: bool) -> Result<DeleteOutcome> {
         let deleted_in_active_result = Self::delete_in_active(safe, key, timestamp, meta.clone(), only_if_presented).await?;
         let deleted_in_active = deleted_in_active_result.as_ref().map(|r| if r.deleted { 1 } else { 0 }).unwrap_or(0);
         let deleted_in_closed = Self::delete_in_closed(safe, key, timestamp, meta).await?;
 
-        if deleted_in_closed > 0 {
-            self.observer.defer_dump_old_blob_indexes().await;
-        }
-        if let Some(result) = deleted_in_active_result {
-            if self.inner.should_try_fsync(result.dirty_bytes) {
-                self.observer.try_fsync_data().await;
-            }
-        }
+        let try_fsync = match deleted_in_active_result {
+            Some(result) => self.inner.should_try_fsync(result.dirty_bytes),
+            None => false,
+        };
 
         debug!("{} deleted total", deleted_in_active + deleted_in_closed);
-        Ok(deleted_in_active + deleted_in_closed)
+        Ok(DeleteOutcome {
+            deleted: deleted_in_active + deleted_in_closed,
+            defer_index_dump: deleted_in_closed > 0,
+            try_fsync,
+        })
     }
 
     async fn delete_in_closed(safe: &Safe<K>, key: &K, timestamp: BlobRecordTimestamp, meta: Option<Meta>) -> Result<u64> {
